@@ -591,13 +591,13 @@ def overlaps(written, read):
 class Flow:
     """Intraprocedural world-set dataflow for one function."""
 
-    def __init__(self, prog, mods, fn, track, entry=None, gen=True):
+    def __init__(self, prog, mods, fn, track, entry=None, gen=True, user_stop=False):
         self.prog = prog
         self.mods = mods
         self.fn = fn
         self.cond = Cond(prog, track)
         self.track = track
-        self.eb = ExprBuilder(prog, fn)
+        self.eb = ExprBuilder(prog, fn, user_stop=user_stop)
         self.eb_raw = ExprBuilder(prog, fn, inline=False)
         self.entry = entry if entry is not None else frozenset([TOP])
         self.gen = gen
